@@ -19,8 +19,8 @@ TEXT = {
          "K-D10 (radius-form centre wrong unless the chord is axis-aligned) is a known finding."),
  "C17": ("All four clauses are theorems over any linearly ordered field with a lawful hypot (instance: the reals): closed-rectangle and closed-disc characterisation, corner-order invariance, soundness of containsRegion for the four type pairs; region suite compares the Float instance with the implementation on boundary-biased inputs.",
          "Exact arithmetic; one-ulp effects of float hypot at a circle border are not covered by the theorem (the suite compares them bit for bit with the model, whose hypot is the correctly rounded one)."),
- "C18": ("gcodeLine_spans / gcodeLine_progress / gcodeLine_total about the regex regenerated from the source, parse_lossless, parse_total, parseLines_lossless: parsing never fails, yields non-empty lines whose full texts concatenate to the input byte for byte. NormCmd.match_eval evaluates the line regex exactly (first-match semantics, lazy parameter group) on every normalised command string; C18_reparse_partial: re-parsing commandString returns the same code, sub-code, parameters, line number and normalised string; C18_checksum_validates_partial: a line rendered with line number and checksum parses back with checksum = computeChecksum(text), so validate() accepts it.",
-         "PARTIAL: the idempotence and checksum theorems assume plain parameters (no backslash escapes, no leading/trailing blank) - the shape the parser produces for sources without backslashes, which is itself not proved; escaped parameters are decided by the parser/text correspondence suites plus the oracle (idempotent, idempotent_seq, checksum)."),
+ "C18": ("gcodeLine_spans / gcodeLine_progress / gcodeLine_total about the regex regenerated from the source, parse_lossless, parse_total, parseLines_lossless: parsing never fails, yields non-empty lines whose full texts concatenate to the input byte for byte. NormCmd.match_eval evaluates the line regex exactly (first-match semantics, lazy parameter group) on every normalised command string; parse_plain: for every source without a backslash a parsed command has exactly that normalised shape (greedy star = last success, lazy group = first success, success independent of captures); C18_idempotent_noescape: re-parsing commandString returns the same code, sub-code, parameters, line number and normalised string; C18_checksum_validates_noescape: a line rendered with line number and checksum parses back with checksum = computeChecksum(text), so validate() accepts it.",
+         "The idempotence and checksum theorems cover every source text without a backslash; lines with backslash escapes inside the parameters are decided by the parser/text correspondence suites plus the oracle (idempotent, idempotent_seq, checksum)."),
  "C19": ("scan_eq: REGEX_PARAMETER_OR_STR.match is a maximal-munch scanner for every text and offset; parameterItems_eq_spec: the letter items equal the reference reading Spec/Reader.specRead for every text; lastValue_spec, g0_acts_on_last_values, track_gcode: handlers act on the last value.",
          "The Lean reference reader is tied to the independent Python reader (refprinter.read_words) by the text suite; they differ only in consuming a trailing decimal point."),
 }
